@@ -175,7 +175,7 @@ class SignalBuffer:
             self._ilb = self._buffer_samples
         else:
             self._buffer[..., -i:] = self._buffer[..., :i]
-            self._buffer[..., :-i] = np.nan
+            self._buffer[..., :-i] = self._fill_value
             self._ilb = self._ilb + self._buffer_samples - i
 
     def invalidate(self, t):
